@@ -1,5 +1,7 @@
-from checks import scan, text
+from checks import scan, text, hexre
 CHECKS = {
+    "C02": hexre.c02,
+    "C03": hexre.c03,
     "C01": text.c01,
     "C10": scan.c10,
     "C11": scan.c11,
